@@ -237,6 +237,36 @@ module F = struct
       Printf.printf "EDGE %d wsum=%d transit=%s ready=%s\n" k (z f.ewsum) (ns f.est.StoreB.transit) (ns f.est.StoreB.ready)) w.wedges
 end
 
+(* ---------------------------------------------------------------- Conserve (verified C03 monitor) *)
+module M = struct
+  open World
+  open Conserve
+  let case _hdr lines =
+    let esrc_tbl = Hashtbl.create 16 in
+    let evs = ref [] in
+    L.iter (fun w ->
+      let i n = int_of_string (L.nth w n) in
+      let nn n = nat_of_int (i n) and zz n = z_of_int (i n) in
+      match L.hd w with
+      | "ESRC" -> Hashtbl.replace esrc_tbl (i 1) (i 2)
+      | "G" -> evs := LGen (zz 1, nn 2, nn 3) :: !evs
+      | "P" -> evs := LPut (zz 1, nn 2, nn 3) :: !evs
+      | "T" -> evs := LGet (zz 1, nn 2, nn 3, nn 4) :: !evs
+      | "K" -> evs := LPack (zz 1, nn 2, nn 3, nn 4) :: !evs
+      | "D" -> evs := LDiscard (zz 1, nn 2, nn 3) :: !evs
+      | "R" -> evs := LRecv (zz 1, nn 2, nn 3) :: !evs
+      | _ -> ()) lines;
+    let esrc e = nat_of_int (try Hashtbl.find esrc_tbl (int_of_nat e) with Not_found -> -1) in
+    let l = L.rev !evs in
+    (* find the first rejected prefix *)
+    let rec go m k = function
+      | [] -> Printf.printf "ACCEPT %d src=%d edge=%d node=%d packed=%d disc=%d recv=%d\n" (L.length m)
+                (int_of_nat (cnt is_src m)) (int_of_nat (cnt is_edge m)) (int_of_nat (cnt is_node m))
+                (int_of_nat (cnt is_pal m)) (int_of_nat (cnt is_disc m)) (int_of_nat (cnt is_recv m))
+      | ev :: r -> (match mstep esrc m ev with Some m' -> go m' (k + 1) r | None -> Printf.printf "REJECT %d\n" k) in
+    go [] 0 l
+end
+
 let () =
   let cur = ref None and ops = ref [] in
   let flush () =
@@ -250,6 +280,7 @@ let () =
           | "tbuffer" -> T.case hdr (L.rev !ops)
           | "storeq" -> Q.case hdr (L.rev !ops)
           | "factory" -> F.case hdr (L.rev !ops)
+          | "monitor" -> M.case hdr (L.rev !ops)
           | m -> failwith ("model " ^ m));
          print_string "END\n");
     cur := None; ops := [] in
